@@ -734,3 +734,25 @@ Example cmp_kernel_nontrivial :
   fast_lex_cmp [1; 2; 3; 4; 5; 6; 7; 200; 0] [1; 2; 3; 4; 5; 6; 7; 8; 255] = Gt /\
   fast_lex_cmp [1; 2; 3; 4; 5; 6; 7; 8] [1; 2; 3; 4; 5; 6; 7; 8; 0] = Lt /\ fast_lex_cmp [] [] = Eq.
 Proof. vm_compute. repeat split; reflexivity. Qed.
+
+(* ======================= extension: the pieces between word boundaries ======================= *)
+From ZV.C20 Require Import ProofsPieces.
+Open Scope N_scope.
+
+(* cutting a text at the positions find_word_boundaries returns: the pieces concatenate to the text, each is non-empty and of one
+   class (word bytes / other bytes), neighbouring pieces are of different classes - every piece is a maximal run *)
+Theorem boundaries_cut :
+  forall s, s <> [] ->
+    let ps := cut s (find_word_boundaries s) in
+    concat ps = s /\ Forall good ps /\ alt ps.
+Proof. exact boundaries_cut_proof. Qed.
+Check boundaries_cut :
+  forall s, s <> [] ->
+    let ps := cut s (find_word_boundaries s) in
+    concat ps = s /\ Forall good ps /\ alt ps.
+Print Assumptions boundaries_cut.
+
+Example pieces_nontrivial :
+  cut [104; 105; 32; 32; 120; 95; 49; 33] (find_word_boundaries [104; 105; 32; 32; 120; 95; 49; 33]) =
+  [[104; 105]; [32; 32]; [120; 95; 49]; [33]].
+Proof. vm_compute. reflexivity. Qed.
